@@ -141,11 +141,13 @@ class PySnmpCodeGen(IntermediateCodeGen):
                         if isinstance(item, dict):
                             escapeTexts(item)
 
-                elif (key in self.TEXT_KEYS + self.ONE_LINE_TEXT_KEYS and
+                elif ((key in self.TEXT_KEYS + self.ONE_LINE_TEXT_KEYS or
+                        # a DEFVAL { "text" }
+                        key == 'value' and dct.get('format') == 'string') and
                         isinstance(value, (str, unicode))):
                     value = value.replace('\\', '\\\\')
 
-                    if key in self.ONE_LINE_TEXT_KEYS:
+                    if key not in self.TEXT_KEYS:
                         value = value.replace('\r', '\\r').replace('\n', '\\n')
 
                     dct[key] = value
